@@ -248,11 +248,15 @@ fn add_op(rng: &mut Rng, used: &mut Vec<u16>, allow_dup: bool) -> String {
                 continue;
             }
             used.push(ty);
-            let n = match rng.below(8) {
+            // raw attributes are not bound by the typed attributes' 763-byte limit (DATA-like payloads): values
+            // just past it, past 1 KiB and a few KiB
+            let n = match rng.below(10) {
                 0 => 0,
                 1 => 763,
                 2 => 762,
                 3 => 761,
+                8 => 764 + rng.below(6) as usize,
+                9 => *rng.pick(&[1021usize, 1024, 1500, 2049, 4096]) + rng.below(4) as usize,
                 _ => rng.below(40) as usize,
             };
             let v = rng.bytes(n);
